@@ -12,6 +12,7 @@ infosets (expat).
 """
 import copy
 import logging
+import os
 
 from . import common, family as F
 from .common import cN, cbool, clist, copt, cstr
@@ -20,7 +21,9 @@ THEOREMS = [
     "create_meets_spec", "create_meets_strict_spec_partial", "create_undeclared_prefix_raises", "create_mirrors_type", "member_object_mirrors_type", "build_fuel_sufficient",
     "split_wellformed", "split_fuel_sufficient", "qualify_spellings", "create_spelling_independent",
     "create_known_name_mirrors", "create_unknown_raises", "create_never_partial",
-    "content_model_flattening_agrees", "object_vs_dict_request",
+    "content_model_flattening_agrees", "object_vs_dict_request", "filled_object_vs_dict",
+    "prebuilt_member_carries_declared_type", "fill_marks_declared_types",
+    "compound_choice_branch_marked", "deep_search_finds_local_names_only",
     "strict_reading_refuted", "malformed_path_accepted",
 ]
 
@@ -753,6 +756,73 @@ def gen_spellings(rng, S, R, thorough):
     return out
 
 
+# ---------------------------------------------------------------------------
+# the exhaustive small scope of the thorough tier
+# ---------------------------------------------------------------------------
+SCOPE = ("ALL interfaces with one namespace and two types: T0 = sequence of 0..2 members, with or without an "
+         "attribute that has a default; T1 = sequence or choice of 0..1 member, alone or extending T0; every member "
+         "of type xsd:string, T0 or T1 and required, optional or repeating (182 x 40 = 7280 interfaces), each with "
+         "every global name in every root form, every member and @attribute by path, paths of three parts, and "
+         "unknown names of each kind")
+
+
+def small_scope():
+    kinds = [("b", "string"), ("n", 0, "T0"), ("n", 0, "T1")]
+    occurs = [(False, False), (True, False), (False, True)]
+    member = [(tr, o, m) for tr in kinds for (o, m) in occurs]                 # 9
+
+    def seqs(names, maxlen):
+        out = [[]]
+        for n in range(1, maxlen + 1):
+            import itertools
+            for combo in itertools.product(member, repeat=n):
+                out.append([F.Elem(names[i], 0, True, tr, opt=o, multi=m) for i, (tr, o, m) in enumerate(combo)])
+        return out
+
+    for m0 in seqs(["e1", "e2"], 2):                                           # 91
+        for attr in (False, True):
+            for m1 in seqs(["e3"], 1):                                         # 10
+                for kind in ("sequence", "choice"):
+                    for base in (None, (0, "T0")):
+                        S = F.Schema([("urn:fam:ns0", True)])
+                        t0 = F.CType("T0", 0, None, [F.Cont("sequence", False, copy.deepcopy(m0))],
+                                     [F.Attr("a1", "string", default="adef")] if attr else [])
+                        t1 = F.CType("T1", 0, base, [F.Cont(kind, False, copy.deepcopy(m1))], [])
+                        S.types = [t0, t1]
+                        S.visible = [t0, t1]
+                        S.simples = []
+                        S.gelems = [GElem("op0", 0, ("n", 0, "T0")), GElem("op1", 0, ("n", 0, "T1"))]
+                        S.feats = set()
+                        yield S
+
+
+def small_spellings(S, R):
+    uri = S.namespaces[0][0]
+    pfx = R.prefixes[0]
+    out = []
+    for name in ("T0", "T1", "op0", "op1"):
+        for sp in (Sp(("plain", name)), Sp(("prefixed", pfx, name)), Sp(("braced", uri, name))):
+            out.append((sp.text(), sp, "scope-global"))
+    for t in S.types:
+        for p, _ in S.flat(t):
+            sp = Sp(("plain", t.name), [(None, False, p.name)])
+            out.append((sp.text(), sp, "scope-member"))
+            if p.tref[0] == "n":
+                for q, _ in S.flat(S.type(p.tref[1], p.tref[2])):
+                    sp = Sp(("braced", uri, t.name), [(None, False, p.name), (None, False, q.name)])
+                    out.append((sp.text(), sp, "scope-path3"))
+                sp = Sp(("prefixed", pfx, t.name), [(None, False, p.name), (None, True, "a1")])
+                out.append((sp.text(), sp, "scope-path3"))
+        sp = Sp(("plain", t.name), [(None, True, "a1")])
+        out.append((sp.text(), sp, "scope-attr"))
+        sp = Sp(("plain", t.name), [(None, False, "bogus")])
+        out.append((sp.text(), sp, "scope-unknown"))
+    for sp in (Sp(("plain", "Bogus")), Sp(("prefixed", "zz", "T0")), Sp(("braced", uri + "x", "T0")),
+               Sp(("plain", "e1")), Sp(("plain", "e3"))):
+        out.append((sp.text(), sp, "scope-unknown"))
+    return out
+
+
 ALPHABET = "{}.:@a\nB"
 
 
@@ -1022,12 +1092,41 @@ def run(ck):
                     ck.count("object-vs-dict-setup-failed")
                     ck.extra.setdefault("object_vs_dict_failures", []).append(repr(e)[:200])
 
+    # ---- thorough: the exhaustive small scope
+    n_scope = 0
+    if thorough:
+        limit = int(os.environ.get("VERIF_SCOPE_LIMIT", "0"))      # development aid only
+        for k, S in enumerate(small_scope()):
+            if limit and k % (7280 // limit) != 0:
+                continue
+            si = 100000 + k
+            R = Renderer3(S, rng)
+            wsdl = render(S, R)
+            try:
+                client = U.client_from_wsdl(wsdl, nosend=True)
+            except Exception as e:  # noqa
+                ck.failing_input("C03:wsdl-load", "generated WSDL could not be loaded: %r" % (e,),
+                                 {"wsdl": wsdl.decode("utf-8"), "error": repr(e)})
+                continue
+            I = new_interner()
+            wlit = wsdl_literal(S, R, I, client)
+            known_names = set(schema_names(S)) | {"value"}
+            for text, sp, label in small_spellings(S, R):
+                impl, shown = run_create(client, text, I, known_names)
+                case = "(mkCC W%d %s %s %s)" % (si, cstr(text), copt(sp.coq(), "spelling"), impl)
+                create_cases.append((si, case, {"wsdl": wsdl, "path": text, "impl": shown, "label": label}))
+                ck.seen(("create", si, text), nontrivial=(impl != "RTypeNotFound" or "." in text))
+                ck.count("create-%s-%s" % (label, impl.split(" ")[0].strip("(")))
+            wdefs.append("Definition W%d : wsdl := %s." % (si, wlit))
+            n_scope += 1
+        ck.extra["exhaustive_scope"] = {"interfaces": n_scope, "scope": SCOPE}
+        ck.exhaustive = True
     ck.extra["phase_seconds"] = {"proof+generation+implementation": round(__import__("time").time() - ck.t0, 1)}
     # ------------------------------------------------------------------ judge
     def batches(cases):
         by = {}
         for c in cases:
-            by.setdefault(c[0] // batch, []).append(c)
+            by.setdefault(c[0] // batch if c[0] < 100000 else 100000 + (c[0] - 100000) // 200, []).append(c)
         return [by[k] for k in sorted(by)]
 
     def pre_for(chunk):
